@@ -384,10 +384,24 @@ static void run_fs(char** a, int n)
   snprintf(p2, sizeof(p2), "%s/b", scratch);
   const size_t size = n > 1 ? strtoul(a[1], 0, 10) : 0;
   if (!strcmp(a[0], "mkdirs")) {
-    snprintf(p1, sizeof(p1), "%s/d%zu/x//y/./z", scratch, V.fail_at + 7 * (size_t)V.mode);
-    ZixStatus   st = zix_create_directories(A, p1);
+    // optional argument: total length of the path (boundary cases of any fixed-size buffer inside the function)
+    char long_path[1200];
+    snprintf(long_path, sizeof(long_path), "%s/d%zu/x//y/./z", scratch, V.fail_at + 7 * (size_t)V.mode);
+    if (size > strlen(long_path) + 2 && size < sizeof(long_path) - 1) {
+      size_t n = strlen(long_path);
+      long_path[n++] = '/';
+      while (n < size) {
+        long_path[n] = (char)((n % 40 == 39) ? '/' : 'a' + (int)(n % 7));  // components of at most 39 bytes
+        ++n;
+      }
+      if (long_path[n - 1] == '/') {
+        long_path[n - 1] = 'q';
+      }
+      long_path[n] = 0;
+    }
+    ZixStatus   st = zix_create_directories(A, long_path);
     struct stat sb;
-    printf("st=%s isdir=%d", stname(st), !stat(p1, &sb) && S_ISDIR(sb.st_mode));
+    printf("st=%s isdir=%d len=%zu", stname(st), !stat(long_path, &sb) && S_ISDIR(sb.st_mode), strlen(long_path));
   } else if (!strcmp(a[0], "canon")) {
     snprintf(p1, sizeof(p1), "%s/./", scratch);
     char* r  = zix_canonical_path(A, p1);
